@@ -836,8 +836,13 @@ Section RingSem.
       assert (Hk : Forall (fun g => wf_scalar ps g /\ s_is_zero g = false) kept).
       { apply Forall_forall. intros g Hin. apply filter_nonzero in Hin. destruct Hin as [Hin Hz].
         rewrite Forall_forall in Hwf. split; [apply Hwf; exact Hin | exact Hz]. }
-      unfold eval_guard in Hg. cbn [c_graphs c_has_approx] in Hg. apply andb_true_iff in Hg. destruct Hg as [Hgg Hgs].
-      unfold evaluate. cbn [c_graphs c_has_approx]. rewrite <- (rsuml_filter_zero gs). fold kept.
+      unfold evaluate, eval_guard in *. rewrite <- (rsuml_filter_zero gs). fold kept.
+      destruct (eval_empty_returns_zero && no_graphs _) eqn:Eempty.
+      { apply andb_true_iff in Eempty. destruct Eempty as [_ Hnil]. unfold no_graphs in Hnil. cbn [c_graphs] in Hnil.
+        destruct cgs; [|discriminate]. inversion Ecgs as [Hk0|]. eexists. split; [reflexivity|].
+        cbn [Evaluate.result_value map Compile.rsuml]. unfold Evaluate.esa_value, den4. cbn [fst snd].
+        rewrite (den_zero R rO rI radd rmul rsub ropp Rth). ring. }
+      cbn [c_graphs c_has_approx] in *. apply andb_true_iff in Hg. destruct Hg as [Hgg Hgs].
       destruct (existsb (fun cg => negb (afac_is_one (cg_approx cg))) cgs) eqn:Eap.
       - destruct (approx_sum _ _ _ _ kept cgs Ecgs Hk Hgg) as (l & El & Vl). rewrite El. eexists. split; [reflexivity | exact Vl].
       - destruct (all_some (map (ev_exact_one bits) cgs)) as [l|] eqn:El; [|discriminate].
@@ -902,14 +907,24 @@ Proof.
   unfold compile_one. destruct (static_float_total g Hff) as [[p2 ff] ->]. eexists. reflexivity.
 Qed.
 
-(* when every graph is the zero scalar nothing is left to sum: jnp.min over the empty graph axis raises *)
-Theorem all_zero_raises gs ps c bits : Forall (fun g => s_is_zero g = true) gs -> compile_scalar_graphs gs ps = Some c ->
-  evaluate bits c = None.
+(* when every graph is the zero scalar nothing is left: without the guard at the top of `evaluate` the reductions over the
+   empty graph axis raise; with it the result is 0 (which of the two holds is regenerated from the source) *)
+Lemma all_zero_compiled gs ps c : Forall (fun g => s_is_zero g = true) gs -> compile_scalar_graphs gs ps = Some c ->
+  c = mkC (length ps) false [].
 Proof.
   intros Hz Hc. unfold compile_scalar_graphs in Hc.
   assert (Hk : filter (fun g => negb (s_is_zero g)) gs = []).
   { clear Hc. induction Hz as [|g gs Hg _ IH]; cbn [filter]; [reflexivity|]. rewrite Hg. exact IH. }
-  rewrite Hk in Hc. cbn in Hc. assert (c = mkC (length ps) false []) by congruence. subst c. reflexivity.
+  rewrite Hk in Hc. cbn in Hc. congruence.
+Qed.
+Theorem all_zero_raises gs ps c bits : eval_empty_returns_zero = false ->
+  Forall (fun g => s_is_zero g = true) gs -> compile_scalar_graphs gs ps = Some c -> evaluate bits c = None.
+Proof. intros Hf Hz Hc. rewrite (all_zero_compiled gs ps c Hz Hc). unfold evaluate. rewrite Hf. reflexivity. Qed.
+Theorem all_zero_value gs ps c bits : eval_empty_returns_zero = true ->
+  Forall (fun g => s_is_zero g = true) gs -> compile_scalar_graphs gs ps = Some c ->
+  evaluate bits c = Some (EvExact (q4_zero, 0)) /\ eval_guard bits c = true.
+Proof.
+  intros Hf Hz Hc. rewrite (all_zero_compiled gs ps c Hz Hc). unfold evaluate, eval_guard. rewrite Hf. split; reflexivity.
 Qed.
 
 (* every 0/1 row of param_vals is `row_of vals ps` for some binary vals (params without duplicates) *)
